@@ -7,6 +7,7 @@ reader.  Monitor: exactly-once conservation between the two.
 from __future__ import annotations
 
 import io
+import json
 import random
 
 from vf.core.result import Res
@@ -27,7 +28,39 @@ EOF_OFF = 0x454F46
 
 def plan(tier: str, seed: int) -> list[dict]:
     n, per, kmax = (32, 160, 4) if tier == "quick" else (64, 320, 8)
-    return [{"seed": seed * 10_000 + i, "n": per, "kmax": kmax} for i in range(n)]
+    shards = [{"seed": seed * 10_000 + i, "n": per, "kmax": kmax} for i in range(n)]
+    # the same workload in an interpreter started with -O (assert statements stripped): what the writer refuses and writes does not depend on it
+    shards += [{"seed": seed * 10_000 + 5000 + i, "n": per // 2, "kmax": min(kmax, 2), "optimized": True} for i in range(2 if tier == "quick" else 6)]
+    return shards
+
+
+def _in_optimized_interpreter(what: str, payload: dict) -> Res:
+    """Runs run_shard / replay of this module in a child interpreter started with -O and returns its result."""
+    import base64
+    import os
+    import pickle
+    import subprocess
+    import sys
+
+    code = ("import sys, json, pickle, base64\nfrom vf.checks import c11\np = json.loads(sys.argv[2])\n"
+            "r = c11.run_shard(p) if sys.argv[1] == 'shard' else c11.replay(p)\nsys.stdout.write('RESULT:' + base64.b64encode(pickle.dumps(r)).decode() + '\\n')\n")
+    env = dict(os.environ, VERIF_C11_INNER="1")
+    res = Res()
+    try:
+        cp = subprocess.run([sys.executable, "-O", "-W", "ignore", "-c", code, what, json.dumps(payload)], env=env, capture_output=True, text=True, timeout=900)
+    except subprocess.TimeoutExpired:
+        res.undecided("the -O child interpreter did not finish within 900 s")
+        return res
+    line = next((ln for ln in cp.stdout.split("\n") if ln.startswith("RESULT:")), None)
+    if line is None:
+        res.undecided(f"the -O child interpreter gave no result (exit {cp.returncode}): {cp.stderr[-300:]}")
+        return res
+    inner: Res = pickle.loads(base64.b64decode(line[7:]))
+    for v in inner.violations:
+        v["witness"]["optimized"] = True
+        v["detail"] = "interpreter started with -O: " + v["detail"]
+    inner.count("histories_in_an_interpreter_started_with_O", payload.get("n", 1))
+    return inner
 
 
 # ----------------------------------------------------------------------------
@@ -99,6 +132,17 @@ def gen_history(rng: random.Random, kmax: int) -> dict:
             if addr >= 0:
                 writes.append([addr, ln, rng.getrandbits(32)])
         return {"copier": copier, "writes": writes, "reuse_buffer": False}
+    if rng.random() < 0.012:
+        # a patch of several megabytes (a whole bank set rewritten, a large included binary): 1.5, 4.5 or 9 MiB in blocks that follow each other
+        total = rng.choice([0x180000, 0x480000, 0x480000, 0x900000])
+        pos = rng.choice([0, 0x8000, 0x100000])
+        while total > 0:
+            ln = min(total, rng.choice([0x10000, 0x80000, 0x123456, 0xFFFF * 3]))
+            writes.append([pos, ln, rng.getrandbits(32)])
+            pos += ln + rng.choice([0, 0, 0x10])
+            total -= ln
+        writes.append([rng.choice([0, 0x7FC0, pos + 5]), rng.choice([2, 64]), rng.getrandbits(32)])
+        return {"copier": rng.random() < 0.5, "writes": writes, "reuse_buffer": False}
     for _ in range(rng.choice([1, 1, 2, 2, 3, 4, 6])):
         ln = gen_len(rng, kmax)
         if len(writes) >= 2 and rng.random() < 0.2:
@@ -312,6 +356,10 @@ def gen_pair(rng: random.Random) -> dict:
 
 
 def run_shard(shard: dict) -> Res:
+    import os
+
+    if shard.get("optimized") and not os.environ.get("VERIF_C11_INNER"):
+        return _in_optimized_interpreter("shard", shard)
     res = Res()
     rng = random.Random(shard["seed"])
     for i in range(shard["n"]):
@@ -326,6 +374,10 @@ def run_shard(shard: dict) -> Res:
 
 
 def replay(w: dict) -> Res:
+    import os
+
+    if w.get("optimized") and not os.environ.get("VERIF_C11_INNER"):
+        return _in_optimized_interpreter("replay", w)
     res = Res()
     if w.get("pair"):
         run_pair(res, w)
